@@ -337,7 +337,7 @@ func c19Run(x *vmc.X, cfg vmc.Cfg) {
 		return true
 	}
 	dsKey := func() string {
-		return store.Dump()
+		return store.Dump() + fmt.Sprintf("|model:%v", dsModel)
 	}
 
 	for step := 0; step < c.depth; step++ {
@@ -383,6 +383,27 @@ func c19Run(x *vmc.X, cfg vmc.Cfg) {
 				return
 			}
 			dsModel = m.snapshot()
+			// what is on disk now, read back the way a restarted process would (into a fresh queue, from a copy of the
+			// datastore): exactly the queue as it was persisted - prefixes, order and keys; nothing from earlier persists
+			probe := NewProvideQueue()
+			if err := probe.DrainDatastore(ctx, store.Clone()); err != nil {
+				x.Failf("C19/drain-error", "DrainDatastore (read-back after Persist): %v", err)
+				return
+			}
+			for i := 0; ; i++ {
+				pp, ks, ok := probe.Dequeue()
+				if !ok {
+					if i != len(dsModel) {
+						x.Failf("C19/persisted-state", "after %s the datastore reads back as %d prefixes, the queue held %d: %s", label, i, len(dsModel), store.Dump())
+						return
+					}
+					break
+				}
+				if i >= len(dsModel) || string(pp) != dsModel[i].prefix || fmt.Sprint(toIdx(ks)) != fmt.Sprint(dsModel[i].keys) {
+					x.Failf("C19/persisted-state", "after %s the datastore reads back (%q,%v) at position %d, the queue held %v: %s", label, pp, toIdx(ks), i, dsModel, store.Dump())
+					return
+				}
+			}
 		case "drain":
 			if err := q.DrainDatastore(ctx, store); err != nil {
 				x.Failf("C19/drain-error", "DrainDatastore: %v", err)
